@@ -69,10 +69,55 @@ def rel (ordered : Bool) (a b : Option Bytes) : String :=
   | some x, some y => if textEq ordered x y then "eq" else "ne"
   | _, _ => "~"
 
+/-! ### pointer-shaped library types (go/harness/ops_enc.go)
+
+`PSxx` (struct{ V *int64 }), `PAxx` ([1]*int64), `PMxx` (map[string]int64) print what their twins MV / MP / TV / TP of
+go/harness/types.go print, from the same travelling JSON text, and are never empty either (a struct, an array of one
+element, a map of one entry): the model sees the twin.  The pointer-receiver arrays PATP / PAJP print `[n]` when they are
+not addressable; they have no twin and stay outside the model (`model=unsupported`). -/
+
+def twinName : String → String
+  | "PSTV" | "PATV" | "PMTV" => "TV"
+  | "PSJV" | "PAJV" | "PMJV" => "MV"
+  | "PSTP" | "PMTP" => "TP"
+  | "PSJP" | "PMJP" => "MP"
+  | n => n
+
+mutual
+def twinT : GoType → GoType
+  | .sl t => .sl (twinT t)
+  | .arr n t => .arr n (twinT t)
+  | .ptr t => .ptr (twinT t)
+  | .map k t => .map (twinT k) (twinT t)
+  | .st fs => .st (twinFs fs)
+  | .lib n => .lib (twinName n)
+  | t => t
+def twinFs : List (String × Option Bytes × GoType) → List (String × Option Bytes × GoType)
+  | [] => []
+  | (n, tg, t) :: r => (n, tg, twinT t) :: twinFs r
+end
+
+mutual
+def twinV : GoVal → GoVal
+  | .sl xs => .sl (twinVs xs)
+  | .arr xs => .arr (twinVs xs)
+  | .ptr v => .ptr (twinV v)
+  | .map kvs => .map (twinKVs kvs)
+  | .any t v => .any (twinT t) (twinV v)
+  | .st vs => .st (twinVs vs)
+  | v => v
+def twinVs : List GoVal → List GoVal
+  | [] => []
+  | v :: r => twinV v :: twinVs r
+def twinKVs : List (GoVal × GoVal) → List (GoVal × GoVal)
+  | [] => []
+  | (a, b) :: r => (twinV a, twinV b) :: twinKVs r
+end
+
 def handleMar (cfg T V : String) (rest : List String) : Option String := do
   let bits ← cfg.toNat?
-  let t ← (parseSxFast T).bind typeOfSx
-  let v0 ← (parseSxFast V).bind valOfSx
+  let t ← ((parseSxFast T).bind typeOfSx).map twinT
+  let v0 ← ((parseSxFast V).bind valOfSx).map twinV
   let o := optsOfCfg bits
   let out := field rest "out"
   let rout := field rest "rout"
